@@ -194,6 +194,20 @@ def gen_history(rng, cfg=None):
                 first_edits = first_edits + [rng.choice([{'m': 'rewrite', 'p': full, 'c': 'changed since ' + GT.rand_content(rng)},
                                                          {'m': 'delete', 'p': full}])]
             break
+    # targeted prior state: DATA entries whose path is written in a non-canonical form (`./a`, `sub/./b`) by some other tool,
+    # for files that changed since: whichever way the update treats such a line, the result has to describe the tree
+    if prior != 'absent' and manifests and rng.random() < cfg.get('p_noncanonical_path', 0.05):
+        cands_ = [(m, e) for m in manifests for e in m['entries'] if e.get('tag') == 'DATA' and 'raw' not in e and 'size' not in e
+                  and not e.get('path', '').startswith('.')]
+        for m, e in rng.sample(cands_, min(len(cands_), rng.choice([1, 2]))):
+            full_ = os.path.normpath(os.path.join(os.path.dirname(m['p']), e['path']))
+            if '/' in e['path'] and rng.random() < 0.5:
+                a_, b_ = e['path'].split('/', 1)
+                e['path'] = a_ + '/./' + b_
+            else:
+                e['path'] = './' + e['path']
+            if rng.random() < 0.7:
+                first_edits = first_edits + [{'m': 'rewrite', 'p': full_, 'c': 'changed since ' + GT.rand_content(rng)}]
     # targeted prior state: ONE path carries a file entry and an IGNORE entry - the IGNORE in a Manifest above the one with
     # the file entry, or later in the same Manifest.  Whatever an update does with such a contradiction (refusing is fine), it
     # does not own the IGNORE line
